@@ -9,10 +9,12 @@ CONSTANTS
   CachePutBeforeDbWrite = TRUE
   BulkVersionsUsesEpoch = FALSE
   FillPolicy = "if_same_generation"
+  FlushIgnoresCleanFlag = TRUE
   Export = FALSE
   MaxSteps = 5
   WithReads = TRUE
   SplitReads = FALSE
+  WithExt = FALSE
 INIT MCInit
 NEXT MCNext
 VIEW View
